@@ -99,7 +99,12 @@ Definition to_rule_graph (skip : list N) (ag : agraph) : graph := intern (dicted
 Definition rule_auts_attr (skip : list N) (ag : agraph) : list mapping := rule_auts (to_rule_graph skip ag).
 
 (** the pruning step of SynReactor.mappings() on the attribute dictionaries of rule.rc.raw (default: atom_map ignored) *)
-Definition run_prune_attr (rc : agraph) (raw : list mapping) : tok := run_prune_wf (to_rule_graph [K_atom_map] rc) raw.
+Definition run_prune_attr (rc : agraph) (raw : list mapping) : tok :=
+  let g := to_rule_graph [K_atom_map] rc in
+  let A := rule_auts g in
+  L [ run_prune g raw; tbool (wfb g); tbool (dom_ok g raw); tbool (rep_ok g raw);
+      (* the symmetries handed to the de-duplicator, as a set of maps (only when the call happens and they are few) *)
+      t_maps (if (1 <? length raw)%nat then (if (length A <=? 60)%nat then A else []) else []) ].
 
 (** deduplicate_matches_by_automorphisms(ms, graph_automorphisms(P, ignore_node_attrs=skip)): kept indices, group order *)
 Definition run_dedup_skip (skip : list N) (p : agraph) (ms : list mapping) : tok :=
